@@ -25,6 +25,8 @@ IsNull(v) == v.k = "null"
 \* small integers (|n| < 2^24), signed representation: 2^63 = 32768 * 2^48
 IntV(n) == IF n >= 0 THEN [k |-> "int", r |-> "i", v |-> <<32768, 0, n>>]
                      ELSE [k |-> "int", r |-> "i", v |-> <<32767, 16777215, 16777216 + n>>]
+\* small naturals in the unsigned representation (fold counts are Uint64)
+UIntV(n) == [k |-> "int", r |-> "u", v |-> <<32768, 0, n>>]
 BoolV(b) == [k |-> "bool", v |-> b]
 StrV(s) == [k |-> "str", v |-> s]
 ListV(s) == [k |-> "list", v |-> s]
